@@ -13,7 +13,17 @@ the original presentation of an input against
             model `C11.move` on integers, so the moved file is EXACTLY a rigid image),
    rotgen : a generic rotation + translation (coordinates re-rounded to 0.001 A),
    all    : perm + hren + rot90 together,
-   hash   : the same file, martinize2 started as a subprocess under fixed PYTHONHASHSEED values.
+   hash   : the same file, martinize2 started as a subprocess under fixed PYTHONHASHSEED values,
+   permrev / permh : every residue listed backwards / hydrogens first, heavy atoms shuffled (further order patterns;
+            `perm#2`, `perm#3` ... are further independent random permutations),
+   hv2    : hydrogens named in the PDB v2 style (digit first: HB2 -> 2HB, HD11 -> 1HD1, H1 -> 1H),
+   hter   : hydrogens of the first residue of every chain H1/H2/H3 -> HT1/HT2/HT3 (CHARMM style),
+   rotfar : rot90 with a translation after which the coordinates use all eight columns of their fields on every axis
+            (up to 9995.xxx, down to -995.xxx, or lying across 1000.000 / -100.000),
+   structure `<name>@alt`: the structure with alternate-location records (A and, displaced, B) for a few atoms; the
+            order patterns then also decide whether B is listed before A,
+   crlf   : the same file with CR LF line ends (parsing is presentation too),
+   all2   : permrev + hv2 + rotfar + CR LF line ends with every line padded with blanks to 96 columns, together.
 Every written ITP is parsed, canonicalised by the Lean function `canonTop` (driver op `canon`) and the canonical
 strings are compared; coordinates are compared modulo the motion.
 """
@@ -35,18 +45,24 @@ chk.extra['rule'] = (
     'runs); distinct = distinct (structure, option set, transformation, output file)')
 chk.extra['explanation'] = (
     'stage invariance proved on models; composition and runtime order-dependence by paired runs only. '
-    'PROVED in Lean: sqdist_isometry (squared distances invariant under x -> A x + t for every integer matrix with '
-    'A^T A = I; the 48 signed permutation matrices are such matrices), and through it rigid-motion invariance of the '
-    'elastic-network model (C15.run), of the distance-bond criterion (C10.DistCrit) and of the Go-contact distance '
-    '(C18.dist2), affine equivariance of bead placement (C09), order-independence of the elastic network (C15), of the '
-    'warning accounting (C08); the comparator canonTop is invariant under reordering of atom lines, consistent '
-    'renumbering of atom indices, reordering of interaction lines and reversal of reversible interactions '
+    'PROVED in Lean (VermouthProps/C11.lean, VermouthProps/C11_Stages.lean), each on the model named: sqdist_isometry '
+    '(squared distances invariant under x -> A x + t, A integer with A^T A = I); bond guessing C10.run: same bond SET for '
+    'every permutation of the atom list, complete result unchanged by a rigid motion; repair_graph C04.repairResidue: a '
+    'residue that is its block under any renaming / order / keys gets exactly the block\'s names, elements and bonds, two '
+    'such presentations agree; do_mapping C01.assemble: atom keys are read only through equality and the order of the lowest '
+    'keys of the matches (invariant under every renumbering keeping both; witness that exchanging two residues\' keys '
+    'exchanges the blocks); Go model C18: invariant under isometries, equivariant under renumberings increasing on the keys '
+    'that occur (witness for a non-monotone one); bead placement C09 then elastic network C15 under a rigid motion (composed on '
+    'lattice-valued bead positions; generic lemmas comp_invariant / comp_equivariant); order-independence of the elastic '
+    'network (C15) and of the warning accounting (C08); the comparator canonTop is invariant under reordering of atom lines, '
+    'consistent renumbering of atom indices, reordering of interaction lines and reversal of reversible interactions '
     '(canonTop_invariant) and identifies nothing else (canonTop_injective_mod_presentation, interRec_faithful). '
-    'EXPLORED only: that the real pipeline as executed by CPython (dict/set iteration order, PYTHONHASHSEED, float '
-    'round-off, KD-tree and VF2 tie-breaking, the composition of the stages) produces the same canonical topology for '
-    'the pairs of presentations that were actually run; the evidence counts those pairs. No statement is made about '
+    'EXPLORED only: that the real pipeline as executed by CPython (stages without a model, dict/set iteration order, '
+    'PYTHONHASHSEED, float round-off, KD-tree and VF2 tie-breaking, the composition of ALL stages) produces the same canonical '
+    'topology for the pairs of presentations that were actually run; the evidence counts those pairs and lists every class of '
+    'admitted difference with its count, largest deviation and bound (admitted_differences). No statement is made about '
     'inputs, options or hash seeds that were not run.')
-chk.lean(['VermouthProps.C11'], 'driver_c11')
+chk.lean(['VermouthProps.C11', 'VermouthProps.C11_Stages'], 'driver_c11')
 chk.trusted += [
     'harness/c11.py: PDB reader/writer and the four input transformations, the ITP tokenizer (section -> number of '
     'atom columns), the comparison of coordinates modulo the motion, the admission rule for near-threshold pairs',
@@ -56,19 +72,55 @@ chk.assumptions += [
     'identity of a particle inside a molecule type = (residue number, atom name) as written in the ITP; the '
     'charge-group column is presentation; comments are ignored except the group label preceding interaction lines',
     'reversible sections: bonds, constraints, pairs, angles, dihedrals (energy invariant under complete reversal)',
-    'rotgen: the moved file is a rigid image only up to 0.0005 A per coordinate, so real-valued parameters derived '
-    'from the geometry are compared with a tolerance (one unit of the last printed place, at least 2e-4) and an '
-    'elastic bond present in one run only is admitted iff its bead distance is within MARGIN of a cut-off',
+    'exact transformations (everything but rotgen): the two inputs are exactly the same structure; bead coordinates and '
+    'short prints may differ by ONE unit of the last printed place, full-precision prints by 1e-10 relative (float '
+    'round-off in another summation order / frame), nothing else',
+    'rotgen: the moved file is a rigid image only up to 0.0005 A per coordinate, so equilibrium lengths and angles are '
+    'compared with the propagated bound (2e-4 nm; 2e-4 + 1e-3 |v| degrees + dihedral conditioning), bead coordinates with '
+    '2.25e-3 A; every other token as in an exact transformation',
+    'an elastic bond present in one run only is admitted iff BOTH runs place its two beads within the margin of the same '
+    'cut-off (margin = 1e-6 nm + resolution of the written coordinates)',
+    'the order of chains / residues in the file is NOT varied: it is not presentation (C11.mapping_nonmonotone_changes_'
+    'block_order); CR LF line ends and trailing blanks are treated as presentation',
 ]
 
 M2PATH = os.path.join(REPO, 'bin', 'martinize2')
 TDATA = os.path.join(REPO, 'vermouth', 'tests', 'data', 'integration_tests')
 SCRATCH = tempfile.mkdtemp(prefix='c11_')
 SYM = ['bonds', 'constraints', 'pairs', 'angles', 'dihedrals']
-COORD_TOL = 0.02            # A  (= 2e-3 nm)
+# coordinates of the written beads (A, three decimals).  Exact transformations (the two inputs are EXACTLY the same
+# structure): a bead is a weighted mean evaluated in floating point in another order / another frame, so the printed
+# value may differ by one unit of the last printed place when it sits on a rounding boundary, not more.
+# Generic rotation: the input was re-rounded to 0.001 A (<= 0.87e-3 A per atom, hence per bead), the original output
+# is rounded before it is moved (<= 0.87e-3 A per component after rotation) and the other output is rounded (0.5e-3).
+COORD_TOL_EXACT = 0.00101
+COORD_TOL_GENERIC = 0.00225
 MARGIN_EXACT = 1e-6 + 2e-4  # nm: 1e-6 + the resolution of the written CG coordinates (0.001 A per coordinate)
 MARGIN_GENERIC = 1e-6 + 5e-4
-NWORKERS = int(os.environ.get('VERIF_C11_WORKERS', '6' if chk.thorough else '4'))
+NWORKERS = int(os.environ.get('VERIF_C11_WORKERS', '10'))
+NTHREADS = int(os.environ.get('VERIF_C11_SUBPROCS', '4'))
+# one run of martinize2 on these inputs takes 5-60 s (loaded machine); a run that takes longer than this is reported as
+# 'does not finish' (exit status `timeout`) - a presentation that sends a graph search into its exponential regime is a
+# difference too, and must end in a verdict rather than in the budget alarm of the whole check
+RUN_TIMEOUT = int(os.environ.get('VERIF_C11_RUN_TIMEOUT', '600' if chk.thorough else '240'))
+
+# ----------------------------------------------------------------------------------------------
+# admitted differences: every one carries its reason; the evidence reports count, largest deviation and bound per class
+# ----------------------------------------------------------------------------------------------
+ADMITTED = {}
+
+
+def admit(cls, deviation, bound, unit, rule, detail):
+    """register one admitted difference: `deviation` <= `bound` has been checked by the caller (asserted here)"""
+    if not deviation <= bound:
+        raise AssertionError('admitted difference outside its bound: %s %r > %r %s' % (cls, deviation, bound, detail))
+    a = ADMITTED.setdefault(cls, {'count': 0, 'max_deviation': -1.0, 'bound_at_max': None, 'unit': unit, 'rule': rule,
+                                  'largest': None})
+    a['count'] += 1
+    chk.count('admitted:' + cls)
+    if deviation > a['max_deviation']:
+        a['max_deviation'], a['bound_at_max'], a['largest'] = deviation, bound, detail
+
 
 # ----------------------------------------------------------------------------------------------
 # PDB text <-> records
@@ -162,6 +214,120 @@ def t_perm(recs, rng):
         for i, a in zip(g, atoms):
             recs[i] = a
     return recs
+
+
+def t_permrev(recs):
+    """every residue listed backwards (hydrogens before the heavy atoms they are bound to)"""
+    recs = [dict(r) if isinstance(r, dict) else r for r in recs]
+    for g in residues_of(recs):
+        atoms = [recs[i] for i in g][::-1]
+        for i, a in zip(g, atoms):
+            recs[i] = a
+    return recs
+
+
+def t_permh(recs, rng):
+    """hydrogens first (in their order), then the heavy atoms in a random order"""
+    recs = [dict(r) if isinstance(r, dict) else r for r in recs]
+    for g in residues_of(recs):
+        atoms = [recs[i] for i in g]
+        hs, heavy = [a for a in atoms if is_h(a)], [a for a in atoms if not is_h(a)]
+        rng.shuffle(heavy)
+        for i, a in zip(g, hs + heavy):
+            recs[i] = a
+    return recs
+
+
+def name_field(nm):
+    """atom name -> the four name columns (names of four characters and names starting with a digit start in
+    column 13, the others in column 14)"""
+    if len(nm) >= 4 or nm[:1].isdigit():
+        return nm[:4].ljust(4)
+    return (' ' + nm).ljust(4)
+
+
+def t_hv2(recs):
+    """hydrogen names in the PDB v2 style: a trailing digit goes to the front (HB2 -> 2HB, HD11 -> 1HD1, H1 -> 1H)"""
+    recs = [dict(r) if isinstance(r, dict) else r for r in recs]
+    n = 0
+    for g in residues_of(recs):
+        taken = {recs[i]['name'].strip() for i in g}
+        for i in g:
+            nm = recs[i]['name'].strip()
+            if is_h(recs[i]) and len(nm) >= 2 and nm[-1].isdigit() and not nm[0].isdigit():
+                new = nm[-1] + nm[:-1]
+                if new not in taken:
+                    taken.discard(nm)
+                    taken.add(new)
+                    recs[i]['name'] = name_field(new)
+                    n += 1
+    return recs, n
+
+
+def t_hter(recs):
+    """CHARMM style names of the ammonium hydrogens: H1/H2/H3 -> HT1/HT2/HT3 in the first residue of every chain"""
+    recs = [dict(r) if isinstance(r, dict) else r for r in recs]
+    n, seen = 0, set()
+    for g in residues_of(recs):
+        ch = recs[g[0]]['chain']
+        if ch in seen:
+            continue
+        seen.add(ch)
+        names = {recs[i]['name'].strip() for i in g}
+        for i in g:
+            nm = recs[i]['name'].strip()
+            if is_h(recs[i]) and nm in ('H1', 'H2', 'H3') and 'HT' + nm[1] not in names:
+                recs[i]['name'] = name_field('HT' + nm[1])
+                n += 1
+    return recs, n
+
+
+FAR_MODES = ('hi', 'lo', 'straddle+', 'straddle-')
+
+
+def far_translation(recs, A, rng):
+    """translation (0.001 A grid) after which the coordinates use ALL EIGHT columns of their %8.3f fields, on every
+    axis in one of four ways: `hi` largest value 9995.xxx (four digits), `lo` smallest value -995.xxx (sign + three
+    digits), `straddle+` / `straddle-` the structure lies across 1000.000 / -100.000, so that some atoms need the
+    first column of the field and others do not.  At least one axis is positive four-digit and one negative
+    three-digit.  -> (t, modes)"""
+    pts = [[sum(A[i][j] * r['xyz'][j] for j in range(3)) for i in range(3)] for r in recs if isinstance(r, dict)]
+    modes = [rng.choice(FAR_MODES) for _ in range(3)]
+    i, j = rng.sample(range(3), 2)
+    modes[i], modes[j] = rng.choice(('hi', 'straddle+')), rng.choice(('lo', 'straddle-'))
+    t = []
+    for ax, m in enumerate(modes):
+        lo_, hi_ = min(p[ax] for p in pts), max(p[ax] for p in pts)
+        t.append({'hi': 9995000 - hi_, 'lo': -995000 - lo_, 'straddle+': 1000000 - (lo_ + hi_) // 2,
+                  'straddle-': -100000 - (lo_ + hi_) // 2}[m])
+    return t, modes
+
+
+def add_alternates(recs, rng, n=5):
+    """an input WITH alternate locations: `n` atoms (in different residues, heavy atoms and hydrogens) get the
+    alternate location indicator A, and a second record B for the same atom, displaced by about 0.9 A, is listed
+    right after it (the usual order).  The reader keeps A and drops B, whatever the order of the two records."""
+    recs = [dict(r) if isinstance(r, dict) else r for r in recs]
+    groups = [g for g in residues_of(recs) if len(g) >= 4]
+    chosen = {}
+    for g in rng.sample(groups, min(n, len(groups))):
+        side = [i for i in g if recs[i]['name'].strip() not in ('N', 'CA', 'C', 'O')] or g
+        chosen[rng.choice(side)] = True
+    out = []
+    for i, r in enumerate(recs):
+        if i in chosen:
+            a, b = dict(r, alt='A'), dict(r, alt='B')
+            b['xyz'] = [r['xyz'][0] + 600, r['xyz'][1] - 500, r['xyz'][2] + 400]
+            out += [a, b]
+        else:
+            out.append(r)
+    return out
+
+
+def text_crlf(text, pad):
+    """CR LF line ends; `pad`: every line padded with blanks to 96 columns first (otherwise the CR directly follows the
+    last column of the record)"""
+    return ''.join((l.ljust(96) if pad else l) + '\r\n' for l in text.split('\n') if l)
 
 
 def d2(a, b):
@@ -283,12 +449,22 @@ def collect(d):
     return files
 
 
+class RunTimeout(BaseException):
+    pass
+
+
+def _run_alarm(*_a):
+    raise RunTimeout()
+
+
 def run_inproc(job):
     """executed in a forked worker: run bin/martinize2 in-process in a fresh directory"""
     argv, pdb_text = job
+    signal.signal(signal.SIGALRM, _run_alarm)   # (the forked worker inherited the budget alarm of the check)
+    signal.alarm(RUN_TIMEOUT)
     from vermouth.file_writer import DeferredFileWriter
     d = tempfile.mkdtemp(dir=SCRATCH, prefix='run_')
-    with open(os.path.join(d, 'in.pdb'), 'w') as f:
+    with open(os.path.join(d, 'in.pdb'), 'w', newline='') as f:
         f.write(pdb_text)
     W = DeferredFileWriter()
     W.close()
@@ -302,9 +478,12 @@ def run_inproc(job):
         runpy.run_path(M2PATH, run_name='__main__')
     except SystemExit as e:
         code = e.code if isinstance(e.code, int) else (0 if e.code is None else 1)
+    except RunTimeout:
+        code, exc = 'timeout', 'martinize2 did not finish within %d s' % RUN_TIMEOUT
     except BaseException as e:  # noqa
         code, exc = 1, 'uncaught %s: %s' % (type(e).__name__, str(e)[:300])   # what the interpreter would exit with
     finally:
+        signal.alarm(0)
         log = sys.stderr.getvalue() + exc
         sys.argv, sys.stderr, sys.stdout = old[:3]
         os.chdir(old[3])
@@ -319,13 +498,13 @@ def run_subproc(job):
     """hash-seed run: a separate interpreter"""
     argv, pdb_text, seed = job
     d = tempfile.mkdtemp(dir=SCRATCH, prefix='sub_')
-    with open(os.path.join(d, 'in.pdb'), 'w') as f:
+    with open(os.path.join(d, 'in.pdb'), 'w', newline='') as f:
         f.write(pdb_text)
     env = dict(os.environ)
     env['PYTHONHASHSEED'] = str(seed)
     env['PYTHONPATH'] = REPO
     p = subprocess.run([sys.executable, '-W', 'ignore', M2PATH] + argv, cwd=d, env=env, stdout=subprocess.PIPE,
-                       stderr=subprocess.PIPE, text=True, timeout=900)
+                       stderr=subprocess.PIPE, text=True, timeout=3 * RUN_TIMEOUT)
     files = collect(d)
     shutil.rmtree(d, ignore_errors=True)
     return {'code': p.returncode, 'files': files, 'log': p.stderr[-3000:]}
@@ -475,25 +654,47 @@ def decimals(tok):
     return len(re.split('[eE]', tok.partition('.')[2])[0])
 
 
-def tok_close(a, b, generic, extra=0.0):
-    """numeric tokens that may legitimately differ between two presentations:
-    exact transformations (the two inputs are exactly the same structure): float round-off only, i.e. one unit of the
-      last printed place for short prints (a value sitting on a rounding boundary), 1e-9 relative for prints with
-      more than 6 decimals;
-    generic rotation (input re-rounded to 0.001 A): additionally 2e-4 + 1e-3 |value| (+ `extra`, the conditioning
-      term of a dihedral angle)."""
-    if a == b:
-        return True
+LENGTH_SECTIONS = ('bonds', 'constraints')
+ANGLE_SECTIONS = ('angles', 'dihedrals')
+
+
+def tok_dev(a, b, generic, extra=0.0, sect='', idx=0):
+    """two numeric tokens (token number `idx` of the parameters, 0 = function type) of the same interaction in the two
+    runs -> (class, deviation, bound, unit), or None when they are not both numbers.  Classes and bounds:
+    float round-off only (exact transformations; and, in a generic rotation, every token that is not an equilibrium
+    length or angle) -
+      `last-place`: a print with <= 6 decimals may differ by ONE unit of its last printed place (a value sitting on
+                    a rounding boundary); deviation counted in units of the last place, bound 1;
+      `relative`  : a full-precision print (> 6 decimals) may differ by 1e-10 relative (coordinates up to 1000 nm carry
+                    1.1e-13 nm of round-off into lengths of 0.2 nm and more);
+    generic rotation (input re-rounded to 0.001 A, every bead moves by <= 0.87e-4 nm), token 1 of the section -
+      `rerounding length` (bonds, constraints): |x - y| <= one unit of the last place + 2e-4 nm;
+      `rerounding angle` (angles, dihedrals): |x - y| <= one unit of the last place + 2e-4 + 1e-3 |value| degrees
+                    (+ `extra`, the conditioning term of a dihedral whose outer bead lies near the axis)."""
     if not (is_num(a) and is_num(b)):
-        return False
+        return None
     x, y = float(a), float(b)
     dp = max(decimals(a), decimals(b))
-    tol = 1.01 * 10.0 ** (-dp) if dp <= 6 else 1e-9 * max(1.0, abs(x), abs(y))
-    if generic:
-        tol += 2e-4 + 1e-3 * max(abs(x), abs(y)) + extra
-    return abs(x - y) <= tol
+    if generic and idx == 1 and sect in LENGTH_SECTIONS + ANGLE_SECTIONS:
+        tol = (1.01 * 10.0 ** (-dp) if dp <= 6 else 1e-10 * max(1.0, abs(x), abs(y)))
+        if sect in LENGTH_SECTIONS:
+            return ('rerounding length', abs(x - y), tol + 2e-4, 'nm')
+        return ('rerounding angle', abs(x - y), tol + 2e-4 + 1e-3 * max(abs(x), abs(y)) + extra, 'degrees')
+    if dp <= 6:
+        return ('last-place', abs(x - y) * 10.0 ** dp, 1.01, 'units of the last printed place')
+    return ('relative', abs(x - y) / max(1.0, abs(x), abs(y)), 1e-10, 'relative')
 
 
+TOK_RULES = {
+    'last-place': 'float round-off, print with <= 6 decimals: the two prints differ by at most ONE unit of the last '
+                  'printed place (a value on a rounding boundary)',
+    'relative': 'float round-off, full-precision print: relative difference <= 1e-10',
+    'rerounding length': 'generic rotation (input re-rounded to 0.001 A), equilibrium length of a bond/constraint: '
+                         '|difference| <= one unit of the last place + 2e-4 nm',
+    'rerounding angle': 'generic rotation, equilibrium angle of an angle/dihedral: |difference| <= one unit of the last '
+                        'place + 2e-4 + 1e-3 |value| degrees (+ the conditioning term of a dihedral whose outer bead '
+                        'lies near the axis)',
+}
 POS_UNCERTAINTY = 2e-4   # nm: re-rounding of the input (<= 0.87e-4 nm per atom) + resolution of the written beads
 
 
@@ -552,7 +753,28 @@ def bead_positions(run):
     return pos
 
 
-def compare_itp(name, cb, co, base_run, opts, generic):
+def elastic_reason(name, ids, runs, lo, hi, margin):
+    """machine-checked reason for an elastic bond that one run has and the other has not: in BOTH runs the distance of
+    the two beads (from the coordinates that run wrote) is within `margin` of the SAME cut-off.
+    -> (reason dict, None) or (None, why not)"""
+    ds = []
+    for r in runs:
+        pos = bead_positions(r).get(name[:-4], [])
+        if not pos:
+            return None, 'no coordinates for %s' % name
+        a, b = pos[0].get(tuple(ids[0][0])), pos[0].get(tuple(ids[1][0]))
+        if not (a and b):
+            return None, 'beads %s not found in the coordinate file' % (ids,)
+        ds.append(math.dist(a, b))
+    for label, thr in (('lower', lo), ('upper', hi)):
+        dev = max(abs(d - thr) for d in ds)
+        if dev <= margin:
+            return {'threshold': '%s cut-off %.4f nm' % (label, thr), 'distance_original_nm': round(ds[0], 5),
+                    'distance_transformed_nm': round(ds[1], 5), 'deviation': dev, 'margin': margin}, None
+    return None, 'bead distance %.5f / %.5f nm is not within %.1e nm of a cut-off (%.3f, %.3f)' % (ds[0], ds[1], margin, lo, hi)
+
+
+def compare_itp(name, cb, co, base_run, other_run, opts, generic, pair):
     """cb/co: exact canon strings (Lean) of base and other. -> (errors, admitted)"""
     if cb == co:
         return [], 0
@@ -585,7 +807,15 @@ def compare_itp(name, cb, co, base_run, opts, generic):
                     if pos is None:
                         pos = bead_positions(base_run)
                     extra = dihedral_slack(ids, pos.get(name[:-4], []))
-                bad = [(p, q) for p, q in zip(x, y) if not tok_close(p, q, generic, extra)]
+                bad, devs = [], []
+                for idx, (p_, q_) in enumerate(zip(x, y)):
+                    if p_ == q_:
+                        continue
+                    d = tok_dev(p_, q_, generic, extra, sect, idx)
+                    if d is None or not d[1] <= d[2]:
+                        bad.append((p_, q_))
+                    else:
+                        devs.append((d, p_, q_))
                 if bad:
                     ITP_DIFFS.append({'kind': 'param', 'sect': sect, 'ids': ids, 'skeleton': params, 'bad': bad})
                     errs.append('%s: %s has parameters %s in the original and %s in the transformed run'
@@ -593,24 +823,29 @@ def compare_itp(name, cb, co, base_run, opts, generic):
                 else:
                     admitted += 1
                     chk.count('admitted_numeric_generic' if generic else 'admitted_roundoff_exact')
+                    for (cls, dev, bound, unit), p_, q_ in devs:
+                        admit('parameter %s [%s]' % (cls, sect), dev, bound, unit,
+                              TOK_RULES[cls],
+                              {'pair': pair, 'file': name, 'section': sect, 'particles': ids,
+                               'original': p_, 'transformed': q_})
             continue
         # an interaction present in one run only: admissible only for an elastic bond at a cut-off
-        ok = False
-        if sect == 'bonds' and 'group:Rubber band' in params and len(ids) == 2 and all(len(i) == 1 for i in ids):
-            if pos is None:
-                pos = bead_positions(base_run)
-            for m in pos.get(name[:-4], [])[:1]:
-                a, b = m.get(tuple(ids[0][0])), m.get(tuple(ids[1][0]))
-                if a and b:
-                    dist = math.dist(a, b)
-                    ok = min(abs(dist - lo), abs(dist - hi)) <= margin
-        if ok:
+        reason, why = None, 'only an elastic bond (comment group "Rubber band") may be present in one run only'
+        if sect == 'bonds' and 'group:Rubber band' in params and len(ids) == 2 and all(len(i) == 1 for i in ids) \
+                and abs(len(pb) - len(po)) == 1:
+            reason, why = elastic_reason(name, ids, (base_run, other_run), lo, hi, margin)
+        if reason:
             admitted += 1
             chk.count('admitted_threshold_pair')
+            admit('elastic bond at a cut-off (%s)' % ('generic rotation' if generic else 'exact transformation'),
+                  reason['deviation'], margin, 'nm',
+                  'both runs place the two beads within the margin of the same cut-off; margin = 1e-6 + resolution '
+                  'of the written coordinates (exact: 2e-4 nm; generic: 5e-4 nm because the input is re-rounded)',
+                  dict(reason, pair=pair, file=name, particles=ids))
         else:
             ITP_DIFFS.append({'kind': 'count'})
-            errs.append('%s: interaction %s occurs %d time(s) in the original and %d time(s) in the transformed run'
-                        % (name, k, len(pb), len(po)))
+            errs.append('%s: interaction %s occurs %d time(s) in the original and %d time(s) in the transformed run (%s)'
+                        % (name, k, len(pb), len(po), why))
     if not errs and not admitted:
         ITP_DIFFS.append({'kind': 'unexplained'})
         errs.append('%s: canonical forms differ' % name)
@@ -618,7 +853,7 @@ def compare_itp(name, cb, co, base_run, opts, generic):
 
 
 ITP_DIFFS = []
-HREN_KINDS = ('hren', 'all', 'hrenlast')
+HREN_KINDS = ('hren', 'all', 'hrenlast', 'hv2', 'hter', 'all2')
 
 
 def first_residue_idents(run):
@@ -679,7 +914,7 @@ def itp_diffs_terminal(name, base_run):
     return True
 
 
-def compare_coords(base_run, other_run, motion):
+def compare_coords(base_run, other_run, motion, pair=''):
     """CG coordinates modulo the motion; atoms matched by (chain, resid, resname, name) in order of appearance"""
     b = parse_cg_pdb(base_run['files'].get('cg.pdb', ''))
     o = parse_cg_pdb(other_run['files'].get('cg.pdb', ''))
@@ -693,6 +928,11 @@ def compare_coords(base_run, other_run, motion):
     for x in o:
         bykey.setdefault(x[:4], []).append(x[4])
     worst = 0.0
+    tol = COORD_TOL_GENERIC if motion[0] == 'generic' else COORD_TOL_EXACT
+    cls = ('bead coordinate (generic rotation)' if motion[0] == 'generic' else 'bead coordinate (exact transformation)')
+    rule = ('generic rotation: re-rounding of the input (0.87e-3 A) + rounding of the original output before it is '
+            'moved (0.87e-3 A) + rounding of the other output (0.5e-3 A)' if motion[0] == 'generic' else
+            'exact transformation: the two prints (three decimals, A) differ by at most ONE unit of the last place')
     DEVIATING[:] = []
     first_res = {}
     for x in b:
@@ -707,7 +947,10 @@ def compare_coords(base_run, other_run, motion):
             p = apply_motion_float(A, t, p)
         dev = max(abs(u - v) for u, v in zip(p, q)) / 1000.0
         worst = max(worst, dev)
-        if dev > COORD_TOL:
+        if 0 < dev <= tol:
+            admit(cls, dev, tol, 'A', rule, {'pair': pair, 'particle': list(x[:4]),
+                                             'moved_original': [c / 1000.0 for c in p], 'transformed': [c / 1000.0 for c in q]})
+        if dev > tol:
             DEVIATING.append((x[:4], dev, first_res[x[0]] == x[1], len(errs)))
             errs.append('particle %s: moved original position %s, transformed run has %s (deviation %.4f A)'
                         % (x[:4], [round(c / 1000.0, 3) for c in p], [c / 1000.0 for c in q], dev))
@@ -776,6 +1019,7 @@ OPTSETS = {
     'm22': ['-ff', 'martini22', '-noscfix', '-ss', 'SS'],
     'm22-cys': ['-ff', 'martini22', '-noscfix', '-cys', 'auto'],
     'm22p-posres': ['-ff', 'martini22p', '-noscfix', '-p', 'all', '-pf', '500', '-maxwarn', '100'],
+    'm3-alt': ['-ff', 'martini3001', '-elastic', '-maxwarn', 'pdb-alternate'],
     'eln22': ['-ff', 'elnedyn22', '-noscfix', '-ss', 'SS', '-eu', '0.7', '-ef', '800.0'],
     'eln21-ter': ['-ff', 'elnedyn21', '-noscfix', '-ss', 'SS', '-nter', 'NH2-ter', '-cter', 'COOH-ter', '-ef', '500', '-maxwarn', '100'],
 }
@@ -796,29 +1040,42 @@ T1 = {
 
 QUICK = [
     # (structure, option set, transformations, hash seeds)
-    ('beta', 'm3-elastic-cys', ['perm', 'hren', 'rot90', 'rotgen'], [0, 1, 12345]),
-    ('trp', 'm3-posres', ['perm', 'rot90', 'all'], []),
-    ('helix', 'm22', ['perm', 'hren'], []),
-    ('dipro', 'm3-nt', ['perm', 'hren', 'hname', 'rot90', 'rotgen'], [0, 1, 2, 3]),
-    ('trp', 'eln22', ['all', 'rotgen'], []),
-    ('beta', 'm3-ss-elastic', ['all', 'hname'], []),
+    ('beta', 'm3-elastic-cys', ['perm', 'perm#2', 'permrev', 'hren', 'hv2', 'rot90', 'rotfar', 'rotgen', 'crlf'], [0, 1, 12345]),
+    ('trp', 'm3-posres', ['perm', 'permh', 'rot90', 'all', 'all2'], []),
+    ('helix', 'm22', ['perm', 'hren', 'hv2', 'hter', 'rotfar'], [7]),
+    ('dipro', 'm3-nt', ['perm', 'permrev', 'hren', 'hname', 'hter', 'rot90', 'rotgen', 'crlf'], [0, 1, 2, 3]),
+    ('trp', 'eln22', ['all', 'all2', 'rotgen', 'rotgen#2'], []),
+    ('beta', 'm3-ss-elastic', ['all', 'all2', 'hname', 'permh'], []),
+    ('helix', 'm3-elastic', ['perm', 'hv2', 'rotfar', 'rotgen'], []),
+    ('dipro', 'm22-cys', ['all2', 'hter'], []),
+    ('beta@alt', 'm3-alt', ['permrev', 'perm', 'rotfar'], []),
 ]
 
 
 def thorough_matrix():
     m = []
-    allt = ['perm', 'hren', 'hname', 'rot90', 'rotgen', 'all']
+    core = ['perm', 'permrev', 'hren', 'hv2', 'rotfar', 'rotgen', 'all', 'all2']
+    more = ['perm#2', 'permh', 'hname', 'hter', 'rot90', 'crlf']
     for s in T0:
         for o in OPTSETS:
+            if o == 'm3-alt':
+                continue
             seeds = [0, 1, 4242] if o in ('m3-elastic-cys', 'm22') else []
-            m.append((s, o, allt, seeds))
+            m.append((s, o, core + (more if o in ('m3-elastic-cys', 'm3-nt', 'm22', 'eln21-ter') else []), seeds))
+    for s in T0:
+        m.append((s + '@alt', 'm3-alt', ['perm', 'perm#2', 'permrev', 'permh', 'rot90', 'rotfar', 'rotgen'], []))
     for s in T1:
-        for o in ('m3-elastic-cys', 'm3-ss', 'm22-cys', 'm3-posres'):
-            m.append((s, o, ['perm', 'hren', 'rot90', 'rotgen', 'all'], [7] if o == 'm3-elastic-cys' else []))
+        for o in ('m3-elastic-cys', 'm22-cys'):
+            m.append((s, o, ['perm', 'hv2', 'rotfar', 'rotgen', 'all2'], [7] if o == 'm3-elastic-cys' else []))
+        for o in ('m3-ss', 'm3-posres'):
+            m.append((s, o, ['all'], []))
     return m
 
 
 def load_structure(s):
+    if s.endswith('@alt'):
+        recs, extra = load_structure(s[:-4])
+        return add_alternates(recs, chk.rng('alt|' + s)), extra
     if s in T0:
         path, extra = os.path.join(TDATA, T0[s]), []
     elif s in T1:
@@ -829,11 +1086,34 @@ def load_structure(s):
         return parse_pdb(f.read()), extra
 
 
+def base_kind(kind):
+    return kind.split('#')[0]
+
+
 def make_transform(kind, recs, rng):
-    """-> (records, motion, description)"""
+    """-> (records, motion, description); `kind#n` is a further independent sample of `kind`"""
     motion, desc = ('none', None, None), {}
+    kind = base_kind(kind)
     if kind in ('perm', 'all'):
         recs = t_perm(recs, rng)
+    if kind in ('permrev', 'all2'):
+        recs = t_permrev(recs)
+    if kind == 'permh':
+        recs = t_permh(recs, rng)
+    if kind in ('hv2', 'all2'):
+        recs, n = t_hv2(recs)
+        desc['renamed'] = n
+    if kind == 'hter':
+        recs, n = t_hter(recs)
+        desc['renamed'] = n
+    if kind in ('rotfar', 'all2'):
+        A = pick_rot90(rng)
+        t, modes = far_translation(recs, A, rng)
+        recs = t_move_exact(recs, A, t)
+        motion = ('exact', A, t)
+        desc['A'], desc['t'], desc['columns'] = A, t, modes
+        for m_ in modes:
+            chk.count('rotfar_axis=' + m_)
     if kind in ('hren', 'all', 'hrenlast'):
         recs, n = t_hren(recs, rng, last=(kind == 'hrenlast'))
         desc['renamed'] = n
@@ -876,7 +1156,13 @@ matrix = list(QUICK)
 if chk.thorough:
     matrix = thorough_matrix()
 corpus = []
-for p in sorted(glob_ for glob_ in os.listdir(os.path.join(VERIF, 'corpus')) if glob_.startswith('c11_') and glob_.endswith('.json')):
+ONLY = os.environ.get('VERIF_C11_ONLY')     # development aid: "structure|optset|kind,kind,...[|seed,seed]" (; separated)
+if ONLY:
+    matrix = []
+    for item in ONLY.split(';'):
+        w = item.split('|')
+        matrix.append((w[0], w[1], [k for k in w[2].split(',') if k], [int(x) for x in w[3].split(',')] if len(w) > 3 else []))
+for p in [] if ONLY else sorted(glob_ for glob_ in os.listdir(os.path.join(VERIF, 'corpus')) if glob_.startswith('c11_') and glob_.endswith('.json')):
     corpus += json.load(open(os.path.join(VERIF, 'corpus', p)))['cases']
 
 # ---- plan all runs -----------------------------------------------------------------------------
@@ -895,8 +1181,12 @@ def plan_group(struct, optname, optargs, kinds, seeds, tag=''):
     for kind in kinds:
         trng = chk.rng('t|%s|%s|%s%s' % (struct, optname, kind, tag))
         trecs, motion, desc = make_transform(kind, recs, trng)
+        text = write_pdb(trecs)
+        if base_kind(kind) in ('crlf', 'all2'):
+            text = text_crlf(text, pad=base_kind(kind) == 'all2')
+            desc['line_ends'] = 'CR LF' + (', lines padded to 96 columns' if base_kind(kind) == 'all2' else '')
         plans.append({'cid': '%s|%s|%s%s' % (struct, optname, kind, tag), 'struct': struct, 'optname': optname,
-                      'argv': argv, 'kind': kind, 'bkey': bkey, 'pdb': write_pdb(trecs), 'motion': motion,
+                      'argv': argv, 'kind': base_kind(kind), 'bkey': bkey, 'pdb': text, 'motion': motion,
                       'desc': desc})
     for sd in seeds:
         plans.append({'cid': '%s|%s|hash%d' % (struct, optname, sd), 'struct': struct, 'optname': optname,
@@ -915,8 +1205,9 @@ import vermouth  # noqa  (imported before the fork so that workers do not pay fo
 logging.getLogger('vermouth').handlers[:] = []
 ctx = multiprocessing.get_context('fork')
 results = {}
+t_runs = time.time()
 with concurrent.futures.ProcessPoolExecutor(max_workers=NWORKERS, mp_context=ctx) as pool, \
-        concurrent.futures.ThreadPoolExecutor(max_workers=3) as tpool:
+        concurrent.futures.ThreadPoolExecutor(max_workers=NTHREADS) as tpool:
     futs = {}
     for bkey, b in bases.items():
         futs[pool.submit(run_inproc, (b['argv'], b['pdb']))] = b['cid']
@@ -930,6 +1221,8 @@ with concurrent.futures.ProcessPoolExecutor(max_workers=NWORKERS, mp_context=ctx
             results[futs[f]] = f.result()
         except Exception as e:  # noqa
             results[futs[f]] = {'code': 'harness-exception:%r' % (e,), 'files': {}, 'log': ''}
+
+chk.extra['seconds_running_martinize2'] = round(time.time() - t_runs, 1)
 
 # ---- canonicalise every ITP through Lean -------------------------------------------------------
 lines, where = [], []
@@ -957,7 +1250,7 @@ def save_replay_files(p, b):
     h = hashlib.sha1((p['pdb'] + ' '.join(p['argv'])).encode()).hexdigest()[:10]
     pt = os.path.join(d, 'C11-%s-transformed.pdb' % h)
     po = os.path.join(d, 'C11-%s-original.pdb' % h)
-    with open(pt, 'w') as f:
+    with open(pt, 'w', newline='') as f:
         f.write(p['pdb'])
     with open(po, 'w') as f:
         f.write(b['pdb'])
@@ -969,7 +1262,21 @@ for bkey, b in sorted(bases.items()):
     r = results[b['cid']]
     chk.count('base_exit=%s' % (r['code'] if isinstance(r['code'], int) else 'exception'))
     if r['code'] != 0:
+        # the structures are the shipped test inputs under options they are known to convert with: not converting the
+        # ORIGINAL presentation is a failure of the pipeline (and leaves nothing to compare the other presentations with)
         chk.notes.append('base run %s exits %s: %s' % (b['cid'], r['code'], r['log'][-300:].replace('\n', ' | ')))
+        d = os.path.join(VERIF, 'replays')
+        os.makedirs(d, exist_ok=True)
+        po = os.path.join(d, 'C11-%s-original.pdb' % hashlib.sha1((b['pdb'] + ' '.join(b['argv'])).encode()).hexdigest()[:10])
+        with open(po, 'w', newline='') as f:
+            f.write(b['pdb'])
+        chk.case(b['cid'], json.dumps({'structure': bkey[0], 'options': b['argv'], 'transformation': 'none',
+                                       'original_pdb': po,
+                                       'replay': 'cd <dir>; martinize2 %s  (in.pdb = original_pdb)' % ' '.join(b['argv'])},
+                                      sort_keys=True),
+                 'exit %s' % r['code'], None,
+                 ['the original presentation of a test structure does not convert: martinize2 exits %s: %s'
+                  % (r['code'], r['log'][-600:].replace('\n', ' | '))], False)
 
 for p in plans:
     b = bases[p['bkey']]
@@ -1010,7 +1317,7 @@ for p in plans:
             if chk.lean_ok:
                 if generic and rb['canon_masked'][n] == ro['canon_masked'][n] and cb != co:
                     chk.count('generic_masked_equal')
-                e, adm = compare_itp(n, cb, co, rb, opt_values(p['argv']), generic)
+                e, adm = compare_itp(n, cb, co, rb, ro, opt_values(p['argv']), generic, p['cid'])
                 errs += e
                 chk.count('itp_identical' if cb == co else ('itp_admitted' if not e else 'itp_differs'))
                 if e and terminal_finding(p) and itp_diffs_terminal(n, rb):
@@ -1018,7 +1325,7 @@ for p in plans:
             else:
                 # no driver: fall back on the Python canonicaliser so that a failing input is still found
                 cb, co = py_canon(rb['tops'][n]), impl
-                e, adm = compare_itp(n, cb, co, rb, opt_values(p['argv']), generic)
+                e, adm = compare_itp(n, cb, co, rb, ro, opt_values(p['argv']), generic, p['cid'])
                 errs += e
             natoms, ninter = len(ro['tops'][n]['atoms']), len(ro['tops'][n]['inters'])
             chk.count('atoms<=20' if natoms <= 20 else 'atoms<=100' if natoms <= 100 else 'atoms>100')
@@ -1031,7 +1338,7 @@ for p in plans:
             if top_body(rb['files'][n]) != top_body(ro['files'][n]):
                 errs.append('%s differs: %s vs %s' % (n, top_body(rb['files'][n])[-6:], top_body(ro['files'][n])[-6:]))
         elif n == 'cg.pdb':
-            e, worst = compare_coords(rb, ro, p['motion'])
+            e, worst = compare_coords(rb, ro, p['motion'], p['cid'])
             dummy_errs, e = split_dummies(p, e)
             if dummy_errs:
                 chk.case('%s|%s#dummies' % (p['cid'], n), json.dumps(dict(descr, output=n + '#charge-dummies'), sort_keys=True),
@@ -1042,7 +1349,7 @@ for p in plans:
             elif e and is_f_c11_3(p, other_errs):
                 finding = 'F-C11-3'
             impl = 'max deviation %.4f A' % worst if not e else 'differs'
-            chk.count('coord_dev<=0.0015A' if worst <= 0.0015 else 'coord_dev<=0.02A' if worst <= 0.02 else 'coord_dev>0.02A')
+            chk.count('coord_dev=0' if worst == 0 else 'coord_dev<=0.001A' if worst <= 0.00101 else 'coord_dev<=0.00225A' if worst <= 0.00225 else 'coord_dev>0.00225A')
         else:
             impl = hashlib.sha1(ro['files'][n].encode()).hexdigest()
             body_b = [l for l in rb['files'][n].split('\n') if not l.startswith(';')]
@@ -1063,6 +1370,10 @@ for p in plans:
 if os.environ.get('VERIF_C11_VERBOSE'):
     for f in chk.failures[:int(os.environ['VERIF_C11_VERBOSE'])]:
         print('FAIL', f['case'], '::', f['oracle'][:700])
+chk.extra['admitted_differences'] = {
+    'note': 'every difference between two paired runs that is NOT reported was admitted under exactly one of these '
+            'classes, after its bound had been checked; anything else is a violation with the pair as replay',
+    'classes': ADMITTED}
 chk.extra['paired_runs'] = len(plans)
 chk.extra['base_runs'] = len(bases)
 chk.extra['workers'] = NWORKERS
